@@ -14,13 +14,24 @@
   Extension (model: `Model/C07SV.lean`): the amplitude-level paths — `LossSimulator.evolve` /
   `_postprocess_sv_impl`, `LC.apply`, the whole matrix of `DensityMatrix.apply_loss` with its beam-splitter
   dilation, a noisy source in front of the loss channels.
+  Extension 3 (model: `Model/C07Sel.lean`): (1) a channel block in the presence of photons in the other modes —
+  the spectator factorisation of its Fock amplitudes and the binomial law for ANY Fock state of the enlarged
+  circuit (`channel_block_with_spectators`, `lc_thinning_with_spectators`, `lc_thinning_row_sums_to_one`);
+  (2) the selection glue of the loss layer (`ASimulatorDecorator._postprocess_bsd`: photon filter with the herald
+  photons added, heralds, post-selection, `keep_heralds`, two successive normalisations; the filter forwarded to
+  the inner simulator) against the specification `SimSpec.conditioned` on the ORIGINAL modes
+  (`loss_selection_is_conditioning`, `selection_sees_only_original_modes`, `loss_selected_distribution_mass_one`,
+  `forwarded_filter_is_redundant`).
   Still outside the theorems (exercised by the correspondence only): `evolve` on superposition inputs; the
-  factorisation of the enlarged circuit's permanents over spectator modes (the dilation theorems speak about the
-  lossy mode and a vacuum environment mode, the other modes being untouched by construction); annotated photons.
+  composition of the per-block Fock operators into the whole enlarged circuit's distribution (each block's operator
+  is now proved with spectators; their composition is C02's `pamp_mul_GQ`, not instantiated here); annotated
+  photons; detectors.
 -/
 import PercevalModel.Lemmas.C07
 import PercevalModel.Lemmas.C07Mass
 import PercevalModel.Lemmas.C07SV
+import PercevalModel.Lemmas.C07Spect
+import PercevalModel.Lemmas.C07Sel
 import PercevalModel.Props.C02
 
 open Matrix
@@ -659,6 +670,135 @@ theorem loss_source_model_mass_one (M : ℕ) (items : Items GQ) (hf : Fits M ite
     (realLoss_allUnitary items hr) (Nat.le_add_right _ _) (sourceDist e s)
     (fun q hq => (sourceDist_length e s q hq).trans hs) (sourceDist_mass_one e s)
 
+/-! ### a loss channel in the presence of photons in the other modes
+
+`binomial_thinning` speaks about `n` photons meeting the channel with every other mode empty.  The statement
+"each photon crossing the channel is removed independently with probability `loss`" is about any state of the
+enlarged circuit: photons waiting in other modes, photons already lost into earlier channels' fresh modes. -/
+
+/-- **channel_block_with_spectators**: for every number of modes, every pair of distinct modes `(a, b)`, every
+`2 × 2` block and all Fock states `s`, `t` of the enlarged circuit: the block placed on `(a, b)` changes no other
+mode (probability zero otherwise) and moves the photons of `(a, b)` with exactly the probability the bare block
+gives to `(s_a, s_b) → (t_a, t_b)` — the spectator photons' factorials cancel. -/
+theorem channel_block_with_spectators {N a b : ℕ} (ha : a < N) (hb : b < N) (hab : a ≠ b)
+    (B : Matrix (Fin 2) (Fin 2) GQ) (s t : List ℕ) (hs : s.length = N) (ht : t.length = N) :
+    Fock.prob (twoMode N a b B) s t =
+      if spectAgree a b s t then Fock.prob B [s.getD a 0, s.getD b 0] [t.getD a 0, t.getD b 0] else 0 :=
+  prob_twoMode ha hb hab B s t hs ht
+
+/-- **lc_thinning_with_spectators**: the block of a loss channel (mode `a`, fresh mode `b` still empty) inside an
+`N`-mode circuit holding ANY Fock state: each of the `s_a` photons on the channel's mode is kept independently with
+probability `τ = c²` — the transition probability to `t` is `C(s_a, t_a) τ^{t_a} (1-τ)^{t_b}` when every other mode
+is unchanged and `t_a + t_b = s_a`, and zero otherwise.  (`thinSpect`.) -/
+theorem lc_thinning_with_spectators {N a b : ℕ} (ha : a < N) (hb : b < N) (hab : a ≠ b) (c s : ℚ)
+    (S T : List ℕ) (hS : S.length = N) (hT : T.length = N) (hvac : S.getD b 0 = 0) :
+    Fock.prob (twoMode N a b (bsH (⟨c, 0⟩ : GQ) ⟨s, 0⟩)) S T = thinSpect (c * c) (s * s) a b S T := by
+  rw [prob_twoMode ha hb hab _ S T hS hT]
+  unfold thinSpect
+  by_cases hag : spectAgree a b S T = true
+  · rw [if_pos hag, hvac]
+    by_cases hsum : T.getD a 0 + T.getD b 0 = S.getD a 0
+    · have hk : T.getD a 0 ≤ S.getD a 0 := by omega
+      have hb' : T.getD b 0 = S.getD a 0 - T.getD a 0 := by omega
+      have hcond : (spectAgree a b S T && (T.getD a 0 + T.getD b 0 == S.getD a 0)) = true := by
+        rw [hag, Bool.true_and]; exact beq_iff_eq.2 hsum
+      rw [if_pos hcond, hb']
+      exact lc_binomial_thinning c s _ _ hk
+    · have hcond : ¬ (spectAgree a b S T && (T.getD a 0 + T.getD b 0 == S.getD a 0)) = true := by
+        rw [hag, Bool.true_and, beq_iff_eq]; exact hsum
+      rw [if_neg hcond]
+      unfold Fock.prob Fock.pamp
+      rw [if_neg (by simp only [List.sum_cons, List.sum_nil]; omega)]
+      simp [GQ.normSq]
+  · have hcond : ¬ (spectAgree a b S T && (T.getD a 0 + T.getD b 0 == S.getD a 0)) = true := by
+      rw [Bool.and_eq_true]; exact fun h => hag h.1
+    rw [if_neg hag, if_neg hcond]
+
+/-- the thinning law with spectators is a probability law over the number of kept photons: for the state with the
+spectators unchanged, `k` photons kept and `n - k` in the fresh mode, `k = 0 … n`, the probabilities sum to one
+when `τ + ρ = 1` -/
+theorem lc_thinning_row_sums_to_one (τ : ℚ) (n : ℕ) :
+    ∑ k ∈ Finset.range (n + 1), thinSpect τ (1 - τ) 0 1 [n, 0] [k, n - k] = 1 := by
+  refine Eq.trans ?_ (thinning_sum_one τ n)
+  apply Finset.sum_congr rfl
+  intro k hk
+  have hk' : k ≤ n := Nat.lt_succ_iff.1 (Finset.mem_range.1 hk)
+  have hsum : (k + (n - k) == n) = true := by simp; omega
+  simp [thinSpect, spectAgree, List.range_succ, hsum]
+
+/-! ### heralds, post-selection and photon filter on top of the loss layer
+
+`SimulatorFactory.build` puts the `LossSimulator` outermost and hands it — and nobody else — the heralds and the
+post-selection; `_postprocess_bsd` applies them to the marginalised distribution: first the photon filter (the
+caller's value plus the herald photons) with a normalisation, then heralds and post-selection with a second
+normalisation, the herald modes being dropped unless `keep_heralds`.  The specification is C03–C05's
+`SimSpec.conditioned` of the marginal distribution: keep the outcomes that satisfy everything, normalise once. -/
+
+/-- **loss_selection_is_conditioning**: for every selection (any heralds, any post-selection expression, any
+filter, either `keep_heralds`), every number of original modes and every normalised enlarged distribution in which
+something passes the photon filter: what `_postprocess_bsd` returns IS the specification — the reported
+distribution is `conditioned` (when something is retained), `logical_perf` is `logicalPerf`, `physical_perf` is
+`physPerf` of the marginal distribution. -/
+theorem loss_selection_is_conditioning (σ : Sel) (M : ℕ) (d : Dist.D) (hd : Dist.mass d = 1)
+    (hp : SimSpec.physPerf σ.cond (postprocess M d) ≠ 0) :
+    ((Dist.mass (SimSpec.retained σ.cond (postprocess M d)) ≠ 0 →
+        (lossPost σ M d).1 = SimSpec.conditioned σ.cond (postprocess M d)) ∧
+      (lossPost σ M d).2.1 = SimSpec.logicalPerf σ.cond (postprocess M d)) ∧
+      (lossPost σ M d).2.2 = SimSpec.physPerf σ.cond (postprocess M d) :=
+  lossPost_spec σ M d hd hp
+
+/-- **selection_sees_only_original_modes**: the probability of passing the whole selection is the probability, in
+the enlarged lossless circuit, of the states whose ORIGINAL modes satisfy it — the heralds and the post-selection
+look at original modes only and the photon filter counts the photons on the original modes only: a lost photon is
+never detected, a virtual mode is never observed. -/
+theorem selection_sees_only_original_modes (c : SimSpec.Cond) (M : ℕ) (d : Dist.D) :
+    Dist.mass (SimSpec.retained c (postprocess M d)) =
+      Dist.mass (Dist.restrict
+        (fun t => SimSpec.physOk c (t.take M) && SimSpec.logicOk c (t.take M)) d) :=
+  retained_postprocess c M d
+
+/-- **loss_selected_distribution_mass_one**: for every accepted component list (any interleaving of unitary
+components and loss channels) with unitary components and unitary channel blocks, every Fock input and every
+selection that retains something: the distribution `LossSimulator.probs` reports is normalised, and
+`physical_perf · logical_perf` of `probs_svd` is exactly the retained probability of the marginal distribution.
+(No separate hypothesis on the photon filter: probabilities are non-negative.) -/
+theorem loss_selected_distribution_mass_one (M N : ℕ) (items : Items GQ) (hwf : WF N M items)
+    (hu : AllUnitary items) (s : List ℕ) (hs : s.length = M) (hMN : M ≤ N) (σ : Sel)
+    (hr : Dist.mass (SimSpec.retained σ.cond (lossProbs (prod N (rewrite M items)) M s)) ≠ 0) :
+    Dist.mass (lossProbsSel σ (prod N (rewrite M items)) M s) = 1 ∧
+      (lossPost σ M (fullDist (prod N (rewrite M items)) (prepareInput M N s))).2.2 *
+        (lossPost σ M (fullDist (prod N (rewrite M items)) (prepareInput M N s))).2.1 =
+        Dist.mass (SimSpec.retained σ.cond (lossProbs (prod N (rewrite M items)) M s)) := by
+  have hd : Dist.mass (fullDist (prod N (rewrite M items)) (prepareInput M N s)) = 1 :=
+    fullDist_mass_one _ (expanded_isUnitary N items M hwf hu) _ (prepareInput_spec M N s hs hMN).1
+  have hp : SimSpec.physPerf σ.cond (lossProbs (prod N (rewrite M items)) M s) ≠ 0 :=
+    physPerf_ne_zero_of_retained _ _ (nonneg_postprocess M _ (nonneg_fullDist _ _)) hr
+  obtain ⟨⟨h1, h2⟩, h3⟩ := lossPost_spec σ M _ hd hp
+  refine ⟨?_, ?_⟩
+  · unfold lossProbsSel
+    rw [h1 hr]
+    exact SimSpec.conditioned_mass_one _ _ hr
+  · rw [h2, h3]
+    exact SimSpec.perf_product _ _ hp
+
+/-- **forwarded_filter_is_redundant**: `set_min_detected_photons_filter` also reaches the inner simulator, which
+tests the photon number of the INPUT of the enlarged circuit — a number that includes the photons that will be
+lost.  It drops an input only when the specification retains nothing of it either: with fewer input photons than
+the caller's filter, no outcome on the original modes passes the outer filter (`physPerf = 0`, nothing retained),
+for every enlarged matrix. -/
+theorem forwarded_filter_is_redundant {N : ℕ} (σ : Sel) (U : Matrix (Fin N) (Fin N) GQ) (M : ℕ) (s : List ℕ)
+    (h : s.sum < σ.minDet) :
+    SimSpec.physPerf σ.cond (lossProbs U M s) = 0 ∧ SimSpec.retained σ.cond (lossProbs U M s) = [] ∧
+      (lossSvdSel σ U M s).2.2 = 0 := by
+  have h0 := restrict_physOk_nil σ U M s h
+  refine ⟨by unfold SimSpec.physPerf; rw [h0]; rfl, ?_, ?_⟩
+  · unfold SimSpec.retained
+    rw [← Dist.restrict_restrict, h0]
+    rfl
+  · unfold lossSvdSel
+    rw [if_pos h]
+    simp
+
 /-! ### layer choice of `SimulatorFactory.build` -/
 
 /-- a list with a loss channel (and no feed-forward) gets the loss layer, outermost -/
@@ -744,5 +884,33 @@ example : Dist.mass (lossProbsMix (prod 6 (rewrite 3 exItems)) 3 (sourceDist (3/
       simp only [exItems, AllUnitary, and_true]
       refine ⟨?_, ?_, ?_, ?_⟩ <;> unfold IsUnitary <;> decide +kernel)
     (by omega) _ (sourceDist_length _ _) (sourceDist_mass_one _ _)
+
+/-- `channel_block_with_spectators` / `lc_thinning_with_spectators`: 5 modes, channel on the interior mode 1 with
+fresh mode 4 (still empty), photons waiting in modes 0 and 2 and one already lost into mode 3 -/
+example : (1 : ℕ) < 5 ∧ (4 : ℕ) < 5 ∧ (1 : ℕ) ≠ 4 ∧ ([2, 3, 1, 1, 0] : List ℕ).length = 5 ∧
+    ([2, 1, 1, 1, 2] : List ℕ).length = 5 ∧ ([2, 3, 1, 1, 0] : List ℕ).getD 4 0 = 0 ∧
+    thinSpect (9/25) (16/25) 1 4 [2, 3, 1, 1, 0] [2, 1, 1, 1, 2] = 3 * (9/25) * (16/25) ^ 2 := by
+  refine ⟨by omega, by omega, by omega, rfl, rfl, rfl, ?_⟩
+  simp [thinSpect, spectAgree, List.range_succ]
+  try norm_num [Nat.choose]
+
+/-- a selection for `loss_selection_is_conditioning` / `loss_selected_distribution_mass_one`: herald 0 photons on
+mode 2, post-selection "mode 0 holds fewer than 2 photons", at least one detected photon, heralds dropped; on a
+normalised two-outcome distribution over 3 + 1 modes both hypotheses hold (something passes the filter, something
+is retained) -/
+def exSel : Sel := ⟨[(2, 0)], .cond [0] .lt 2, 1, false⟩
+def exDist : Dist.D := [([1, 0, 0, 0], 1/2), ([0, 0, 0, 1], 1/2)]
+
+example : Dist.mass exDist = 1 ∧ SimSpec.physPerf exSel.cond (postprocess 3 exDist) ≠ 0 ∧
+    Dist.mass (SimSpec.retained exSel.cond (postprocess 3 exDist)) ≠ 0 ∧
+    (lossPost exSel 3 exDist).1 = [([1, 0], 1)] := by
+  refine ⟨by norm_num [exDist, Dist.mass], ?_, ?_, ?_⟩ <;>
+    simp [exSel, exDist, Sel.cond, Sel.filter, SimSpec.physPerf, SimSpec.retained, SimSpec.physOk, SimSpec.logicOk,
+      SimSpec.heraldsOk, SimSpec.PS.eval, SimSpec.Cmp.eval, postprocess, Dist.mapKeys, Dist.restrict, Dist.mass,
+      lossPost, filterCount, postSelect, hasCond, Dist.normalize, Dist.scale, SimSpec.reported,
+      SimSpec.removeModes, List.zipIdx] <;> norm_num
+
+/-- `forwarded_filter_is_redundant`: a filter of 3 photons against a 2-photon input -/
+example : ([1, 1, 0] : List ℕ).sum < (⟨[], .tt, 3, true⟩ : Sel).minDet := by decide
 
 end PM.C07
